@@ -58,6 +58,10 @@ MUTATIONS = {
     "M9-guard-weakened-k": lambda: sub(MAIN, "if (k < 3)", "if (k < 2)"),
     "M10-output-delimiter-in-writer": lambda: sub(UTIL, "                of << delimiter;", "                of << ',';"),
     "M11-projection-needs-one-file": lambda: sub(MAIN, "if (opt.count(OUTPUT_PROJECTION_MATRIX_FILE_KEYWORD) &&", "if (opt.count(OUTPUT_PROJECTION_MATRIX_FILE_KEYWORD) ||"),
+    "M16-float-temporaries": lambda: (sub(MAIN, "double width = opt[GAUSSIAN_WIDTH_KEYWORD].as<double>();", "float width = opt[GAUSSIAN_WIDTH_KEYWORD].as<double>();"),
+                              sub(MAIN, "tapkee::nullspace_shift = opt[EIGENSHIFT_KEYWORD].as<double>(),", "tapkee::nullspace_shift = static_cast<float>(opt[EIGENSHIFT_KEYWORD].as<double>()),"),
+                              sub(MAIN, "tapkee::landmark_ratio = opt[LANDMARK_RATIO_KEYWORD].as<double>(),", "tapkee::landmark_ratio = static_cast<float>(opt[LANDMARK_RATIO_KEYWORD].as<double>()),")),
+    "M17-precompute-distance-from-kernel": lambda: sub(MAIN, "tapkee::eigen_distance_callback(input_data));", "tapkee::eigen_kernel_callback(input_data));"),
     "H1-reorder-options": move_precompute_first,
     "H2-rename-locals": rename_locals,
 }
